@@ -4,6 +4,7 @@
 //! that a TLA+ trace specification accepts or rejects.
 mod av;
 mod conc;
+mod cost;
 mod payload;
 mod sources;
 mod stream;
@@ -13,6 +14,9 @@ mod wirecases;
 
 use std::collections::HashMap;
 use std::io::Write;
+
+#[global_allocator]
+static GLOBAL: cost::Counting = cost::Counting;
 
 pub struct Args {
     pub cmd: String,
@@ -92,6 +96,8 @@ fn main() {
         "total" => total::run(&args),
         "stream" => stream::run(&args),
         "payload" => payload::run(&args),
+        "cost" => cost::run(&args),
+        "cost-child" => cost::cost_child(&args),
         "bomb-child" => total::bomb_child(&args),
         other => {
             eprintln!("vh: unknown command {other}");
